@@ -209,7 +209,7 @@ async def feed_history(loop: vloop.VirtualLoop, ctx, trial: int) -> None:
                     b_st = [before[i].timestamp for i in b_idx]
                     well_formed = all(a > b for a, b in zip(b_st, b_st[1:])) and all(s < e["ts"] for s in b_st)
                     if well_formed:
-                        want = {0: e["ts"], **{i + 1: before[i].timestamp for i in b_idx if i + 1 <= 0x3E}}
+                        want = {0: e["ts"], **{i + 1: before[i].timestamp for i in b_idx if i + 1 <= 0x3F}}
                         have = {i: v.timestamp for i, v in after.items()}
                         if have != want:
                             ctx.violate(
@@ -493,7 +493,7 @@ async def real_sequence(loop: vloop.VirtualLoop, ctx, trial: int) -> None:
                     if before is not None and after is not None:
                         b = list(before.values())
                         if all(x > y for x, y in zip(b, b[1:])) and all(x < e["ts"] for x in b):
-                            want = {0: e["ts"], **{i + 1: t for i, t in before.items() if i + 1 <= 0x3E}}
+                            want = {0: e["ts"], **{i + 1: t for i, t in before.items() if i + 1 <= 0x3F}}
                             if after != want:
                                 ctx.violate(
                                     pushdown_key(before, after, e["ts"]),
